@@ -45,7 +45,15 @@ pub fn check_survivor(path: &Path, gold: &[Vec<Row>], run: &KillRun) -> Survivor
     // survivors are opened one at a time: concurrent opens in one process contend for Tantivy's index lock
     static OPEN_LOCK: Mutex<()> = Mutex::new(());
     let _g = OPEN_LOCK.lock().unwrap_or_else(|e| e.into_inner());
-    let r = std::panic::catch_unwind(move || Memvid::open(&p).map(|mut m| { let t = table_of(&mut m); let v = m.verify_hint(); (t, v) }));
+    let mut r = std::panic::catch_unwind({ let p = p.clone(); move || Memvid::open(&p).map(|mut m| { let t = table_of(&mut m); let v = m.verify_hint(); (t, v) }) });
+    for attempt in 0..5 {
+        // Tantivy's scratch-directory lock can be transiently busy on a loaded machine: retry
+        let busy = matches!(&r, Ok(Err(e)) if e.to_string().contains("LockBusy"));
+        if !busy { break; }
+        std::thread::sleep(std::time::Duration::from_millis(150 * (attempt + 1)));
+        r = std::panic::catch_unwind({ let p = p.clone(); move || Memvid::open(&p).map(|mut m| { let t = table_of(&mut m); let v = m.verify_hint(); (t, v) }) });
+    }
+    if matches!(&r, Ok(Err(e)) if e.to_string().contains("LockBusy")) { return mk("inconclusive", "Tantivy scratch lock busy".into()); }
     match r {
         Err(_) => mk("open-panicked", String::new()),
         Ok(Err(e)) => if run.started { mk("open-failed", e.to_string()) } else { mk("open-failed-during-create", e.to_string()) },
